@@ -1,10 +1,10 @@
 SPECIFICATION Spec
 CONSTANTS
-  Sizes <- S2
-  Pixels <- P2
+  Sizes <- S3
+  Pixels <- P1
   Ratios <- R1
-  XtModes = {"text"}
-  IoPx = {FALSE}
+  XtModes = {"cell", "none"}
+  IoPx = {TRUE, FALSE}
   Ops = {"cell"}
   Variant = "code"
 INVARIANT TypeOK
@@ -15,3 +15,4 @@ INVARIANT MemoFresh
 INVARIANT BodyOnce
 VIEW View
 CHECK_DEADLOCK FALSE
+ACTION_CONSTRAINT Dump
